@@ -7,6 +7,10 @@ import concurrent.futures as cf
 import glob, json, os, shutil, subprocess, sys, tempfile
 ROOT = os.path.dirname(os.path.dirname(os.path.abspath(__file__)))
 ALL = ["C%02d" % i for i in range(1, 21)]
+# ONLY_CHECKS=C05,C11: re-run just these checks for every selected variant and merge them into the existing rows (after a change to one rule module)
+ONLY_CHECKS = [c for c in os.environ.get("ONLY_CHECKS", "").split(",") if c]
+if ONLY_CHECKS:
+    ALL = [c for c in ALL if c in ONLY_CHECKS]
 NW = int(os.environ.get("NW", "4"))
 kind = sys.argv[1]
 only = sys.argv[2:]
@@ -51,9 +55,13 @@ def one_variant(item):
     return name, row
 
 
-mat = json.load(open(mpath)) if (only and os.path.exists(mpath)) else {}
+mat = json.load(open(mpath)) if ((only or ONLY_CHECKS) and os.path.exists(mpath)) else {}
 with cf.ThreadPoolExecutor(NW) as ex:
     for name, row in ex.map(one_variant, items):
+        if ONLY_CHECKS and isinstance(mat.get(name), dict) and "error" not in row:
+            merged = {k: v for k, v in mat[name].items() if k not in ONLY_CHECKS}
+            merged.update(row)
+            row = merged
         mat[name] = row
         if kind == "seeded":
             own = name.split("-")[0]
